@@ -252,6 +252,18 @@ func checkC10(c *InvalidCase) (*ev.Failure, string) {
 				return nil, "skip:edit-did-not-invalidate"
 			}
 		}
+		if verrs == nil {
+			// the document itself is valid, only no operation can be selected from it: the same text was possibly
+			// sent before with a name that selects one (nothing remembered from that request may answer this one)
+			for _, o := range doc.Operations {
+				if o.Name != "" {
+					n := o.Name
+					gwx.PostOp(gw, gwx.GQLRequest{Query: c.Op.Query, Variables: c.Op.Variables, OperationName: &n}, 10*time.Second)
+					net.Reset()
+					break
+				}
+			}
+		}
 		resp := gwx.PostOp(gw, gwx.GQLRequest{Query: c.Op.Query, Variables: c.Op.Variables, OperationName: c.Op.OperationName}, 10*time.Second)
 		if resp.TimedOut {
 			return ev.Failf("hang", "no response"), ""
@@ -358,6 +370,14 @@ func genErrorPayload(t *rapid.T) []map[string]interface{} {
 			e["locations"] = []interface{}{map[string]interface{}{"line": float64(2), "column": float64(3)}}
 		}
 		res = append(res, e)
+	}
+	if n >= 2 && rapid.IntRange(0, 2).Draw(t, "samemsg") == 0 {
+		// the same failure at several places: equal message and code, different paths
+		for i, e := range res {
+			e["message"] = "not authorized"
+			e["extensions"] = map[string]interface{}{"code": "FORBIDDEN"}
+			e["path"] = []interface{}{"items", float64(i), "secret"}
+		}
 	}
 	return res
 }
